@@ -32,7 +32,7 @@ import copy
 from dataclasses import dataclass, field
 from typing import Any, Callable, Iterable
 
-from ..engine.normalize import ANCHOR_NAMES, inline_helpers
+from ..engine.normalize import ANCHOR_NAMES
 from ..engine.resolver import FuncInfo, Program
 from ..engine.terms import Poly, TermEval
 
@@ -158,6 +158,36 @@ def _cmp_atom(left: ast.AST, op: ast.cmpop, right: ast.AST) -> tuple[Atom | None
     if isinstance(op, (ast.In, ast.NotIn)):
         return Atom(("in", ka, kb), "in", (left, right)), isinstance(op, ast.In)
     raise Unsupported(f"comparison operator {type(op).__name__}")
+
+
+def _const_like(e: ast.AST) -> bool:
+    """`Enum.MEMBER` / `mod.Enum.MEMBER`: a dotted name whose last component is upper case."""
+    return isinstance(e, ast.Attribute) and e.attr.isupper() and all(
+        isinstance(n, (ast.Attribute, ast.Name, ast.Load)) for n in ast.walk(e))
+
+
+def _forced(atom: Atom, st: "State") -> bool | None:
+    """Outcome of an equality / identity atom that earlier outcomes on the path already determine:
+    an expression equal to one constant is different from every other constant, and a constant is not None."""
+    if atom.kind not in ("eq", "is"):
+        return None
+    a, b = atom.ops
+    if _const_like(b):
+        a, b = b, a
+    if not _const_like(a):
+        return None
+    if isinstance(b, ast.Constant) and b.value is None:
+        return False
+    if _const_like(b):
+        return None if text(a) == text(b) else False
+    kb = pkey(b)
+    for key, val in st.facts.items():
+        if val and key[0] in ("eq", "is") and key != atom.key and kb in key[1]:
+            other = st.atoms[key]
+            oc = [o for o in other.ops if _const_like(o)]
+            if len(oc) == 1 and text(oc[0]) != text(a) and pkey([o for o in other.ops if o is not oc[0]][0]) == kb:
+                return False
+    return None
 
 
 # ------------------------------------------------------------------------------------- state
@@ -336,20 +366,22 @@ class Exec:
     MAX_PATHS = 3000
 
     def __init__(self, prog: Program, fn: FuncInfo, max_depth: int = 3,
-                 extra_inline: Iterable[str] = (), bool_attrs: Iterable[str] = ()) -> None:
+                 extra_inline: Iterable[str] = (), bool_attrs: Iterable[str] = (), inline_all: bool = False) -> None:
         self.prog = prog
         self.fn = fn
         self.max_depth = max_depth
         self.extra_inline = set(extra_inline)
+        self.inline_all = inline_all  # also execute the functions other checkers anchor by name
+        self.inlined: dict[str, FuncInfo] = {}  # callees executed in line so far (qualified name -> function)
         self.bool_attrs = set(bool_attrs)  # attribute names holding booleans: writes are evaluated to True/False
         self._prepared: dict[int, ast.AST] = {}
 
     # ---------------------------------------------------------------- entry points
     def prepared(self, fn: FuncInfo) -> Any:
-        """The function's tree with single-expression private helpers spliced in (analysis copy)."""
-        if id(fn.node) not in self._prepared:
-            self._prepared[id(fn.node)] = inline_helpers(self.prog, fn)
-        return self._prepared[id(fn.node)]
+        """The function's tree as analysed.  (Helpers are NOT spliced textually: substituting an argument
+        expression for a parameter *by name* moves reads of `self.x` behind the helper's own writes of
+        `self.x`; helper calls are executed by value instead, see `_splice`.)"""
+        return fn.node
 
     def initial(self, params: dict[str, str] | None = None) -> State:
         st = State()
@@ -383,7 +415,7 @@ class Exec:
             target = self.fn.module.functions[f.id]
         if target is None:
             return None
-        if target.name in ANCHOR_NAMES and target.name not in self.extra_inline:
+        if target.name in ANCHOR_NAMES and target.name not in self.extra_inline and not self.inline_all:
             return None
         if any(not (isinstance(d, ast.Name) and d.id in ("staticmethod", "override")) for d in target.node.decorator_list):
             return None
@@ -439,7 +471,12 @@ class Exec:
                 return None  # a raising helper: keep the call opaque
             s.locals = dict(saved)
             out.append((s, ex[1] if ex[1] is not None else ast.Constant(None)))
+        self.inlined[target.qual] = target
         return out
+
+    def opaque_private_calls(self, p: "PathSum") -> list[str]:
+        """Calls of private functions of this class / module that a path could not see through."""
+        return [e[1] for e in p.events if e[0] == "call" and not _is_pure_call(e[2]) and self._callee(e[2]) is not None]
 
     # ---------------------------------------------------------------- expressions
     def _res(self, e: ast.AST, st: State) -> ast.AST:
@@ -472,14 +509,27 @@ class Exec:
         for c in _own_calls(e):
             st.events.append(("call", text(c), c))
             if not _is_pure_call(c) and st.attrs:
-                st.havoc += 1
-                for k in list(st.attrs):
+                # an effectful call may change what it can reach: the receiver object (for `self.m()` the
+                # whole of self) and the objects passed as arguments
+                reach = [text(a) for a in list(c.args) + [k.value for k in c.keywords]]
+                if isinstance(c.func, ast.Attribute):
+                    reach.append(text(c.func.value))
+                hit = [k for k in st.attrs if any(k == r or k.startswith(r + ".") or k.startswith(r + "[") for r in reach)]
+                if hit:
+                    st.havoc += 1
+                for k in hit:
                     st.attrs[k] = ast.Name(id=f"HAVOC{st.havoc}<{k}>", ctx=ast.Load())
 
     def _decide(self, atom: Atom, pol: bool, st: State) -> list[tuple[State, bool]]:
         if atom.key in st.facts:
+            st.events.append(("cond", atom.key, st.facts[atom.key]))  # evaluated again, same outcome
             return [(st, st.facts[atom.key] == pol)]
         st.atoms.setdefault(atom.key, atom)
+        forced = _forced(atom, st)
+        if forced is not None:
+            st.facts[atom.key] = forced
+            st.events.append(("cond", atom.key, forced))
+            return [(st, forced == pol)]
         for op in atom.ops:
             self._record_calls(op, st)
         out = []
@@ -520,6 +570,12 @@ class Exec:
             for s, c in self._bool(e.test, st, depth):
                 out.extend(self._bool(e.body if c else e.orelse, s, depth))
             return out
+        if isinstance(e, ast.Compare) and not getattr(e, "_spliced", False):
+            out = []
+            for s, e2 in self._splice(e, st, depth):
+                e2._spliced = True  # type: ignore[attr-defined]
+                out.extend(self._bool(e2, s, depth))
+            return out
         if isinstance(e, ast.Compare):
             res = [(st, True)]
             left = e.left
@@ -554,6 +610,15 @@ class Exec:
                 return out
         if isinstance(e, (ast.NamedExpr, ast.Yield, ast.YieldFrom)):
             raise Unsupported(f"{type(e).__name__} in a condition")
+        if not getattr(e, "_spliced", False):
+            out = []
+            for s, e2 in self._splice(e, st, depth, skip_top=isinstance(e, ast.Call)):
+                if e2 is not e:
+                    out.extend(self._bool(e2, s, depth))
+                else:
+                    e2._spliced = True  # type: ignore[attr-defined]
+                    out.extend(self._bool(e2, s, depth))
+            return out
         return self._decide(Atom(("truthy", text(e)), "truthy", (e,)), True, st)
 
     def _value(self, e: ast.AST, st: State, depth: int, mode: str = "value") -> list[tuple[State, ast.AST]]:
@@ -593,8 +658,52 @@ class Exec:
                 for s, v in got:
                     out.extend(self._value(v, s, depth) if isinstance(v, (ast.BoolOp, ast.Compare, ast.IfExp, ast.UnaryOp)) else [(s, v)])
                 return out
-        self._record_calls(e, st)
-        return [(st, e)]
+        out2 = []
+        for s2, e2 in self._splice(e, st, depth):
+            self._record_calls(e2, s2)
+            out2.append((s2, e2))
+        return out2
+
+    def _splice(self, e: ast.AST, st: State, depth: int, skip_top: bool = False) -> list[tuple[State, ast.AST]]:
+        """Execute the simple-helper calls nested anywhere in the resolved expression `e` (innermost first,
+        i.e. in evaluation order) and put the value each returned in their place: by value — the
+        arguments are the expressions as they stand at the call, the result is what the callee's path
+        returned.  One (state, expression) per combination of callee paths."""
+        todo: list[tuple[State, ast.AST]] = [(st, e)]
+        out: list[tuple[State, ast.AST]] = []
+        while todo:
+            cur, expr = todo.pop()
+            nodes = list(ast.walk(expr))
+            pick = None
+            for c in _own_calls(expr):
+                if getattr(c, "_opaque", False) or (skip_top and c is expr):
+                    continue
+                if self._callee(c) is None:
+                    c._opaque = True  # type: ignore[attr-defined]
+                    continue
+                got = self._inline(c, cur, "value", depth, awaited=False)
+                if got is None:
+                    c._opaque = True  # type: ignore[attr-defined]
+                    continue
+                pick = (c, got)
+                break
+            if pick is None:
+                out.append((cur, expr))
+                continue
+            c, got = pick
+            pos = next(i for i, n in enumerate(nodes) if n is c)
+            for s2, v in got:
+                new = copy.deepcopy(expr)
+                tgt = list(ast.walk(new))[pos]
+                val = copy.deepcopy(v)
+                val._from_env = True  # type: ignore[attr-defined]
+                if tgt is new:
+                    new = val
+                else:
+                    _replace_child(new, tgt, val)
+                todo.append((s2, new))
+            self._guard(todo)
+        return out
 
     def _guard(self, res: list[Any]) -> None:
         if len(res) > self.MAX_PATHS:
@@ -662,6 +771,8 @@ class Exec:
                     n.ctx = ast.Load()  # type: ignore[attr-defined]
             val = self._res(ast.BinOp(left=load, op=s.op, right=s.value), st)
             return [(x, None) for x in self._assign([s.target], val, st, depth)]
+        if isinstance(s, ast.If) and _only_logs(s):
+            return [(st, None)]  # reporting only: neither outcome changes state, calls or results
         if isinstance(s, ast.If):
             out: list[tuple[State, tuple[str, ast.AST | None] | None]] = []
             for s2, c in self._bool(self._res(s.test, st), st, depth):
@@ -686,6 +797,34 @@ class Exec:
                 out.append((s2, None if c else ("raise", None)))
             return out
         raise Unsupported(f"statement {type(s).__name__} at line {getattr(s, 'lineno', '?')}")
+
+
+def _replace_child(root: ast.AST, old: ast.AST, new: ast.AST) -> None:
+    for n in ast.walk(root):
+        for name, value in ast.iter_fields(n):
+            if value is old:
+                setattr(n, name, new)
+                return
+            if isinstance(value, list):
+                for i, item in enumerate(value):
+                    if item is old:
+                        value[i] = new
+                        return
+    raise Unsupported("internal: node to replace not found")
+
+
+def _is_log_stmt(s: ast.stmt) -> bool:
+    return isinstance(s, ast.Pass) or (isinstance(s, ast.Expr) and isinstance(s.value, ast.Call)
+                                       and u(s.value.func).split(".")[0] in ("_logger", "logging", "_log"))
+
+
+def _only_logs(s: ast.If) -> bool:
+    """`if <effect-free test>: <logging calls only>` (also nested) — skipped by the executor."""
+    def arms_ok(x: ast.If) -> bool:
+        return all(_is_log_stmt(b) or (isinstance(b, ast.If) and _only_logs(b)) for b in x.body + x.orelse)
+    calls = [c for c in ast.walk(s.test) if isinstance(c, ast.Call)]
+    return arms_ok(s) and all(_is_pure_call(c) for c in calls) and not any(
+        isinstance(n, (ast.NamedExpr, ast.Await)) for n in ast.walk(s.test))
 
 
 def _locals_only(st: State) -> State:
